@@ -520,10 +520,14 @@ def run(ctx, sm, facts):
         if mname not in wf.methods:
             ctx.error('C15', 'anchor Waveform.%s not found' % mname)
             return
+    ctx.rule('C15.f', 'recorder scenarios evaluated on elaborated systems: getDict() and the decoded rendering equal the carried values')
+    check_f(ctx, facts, ctx.tier, ctx.seed)
+    nv, ne = len(ctx.violations), len(ctx.errors)
     check_init(ctx, wf)
     check_clock(ctx, wf)
     check_clear(ctx, wf)
     check_wavedrom(ctx, wf)
+    ctx.defer_shape(('C15.a', 'C15.b', 'C15.c', 'C15.d'), 'C15.f', nv, ne)
     c05_check_b(ctx, facts)
     # Wire identity: keys of the sample table are wire objects
     for cn in ('Wire', 'BidirWire'):
@@ -533,6 +537,4 @@ def run(ctx, sm, facts):
             ctx.violation('C15.a', '%s-identity' % cn, '%s defines %s: the sample table is keyed by wire objects' % (cn, ident), 'py4hw/base.py:%s' % cn)
         else:
             ctx.ok('C15.a', '%s-identity' % cn, 'wires keep identity equality/hash')
-    ctx.rule('C15.f', 'recorder scenarios evaluated on elaborated systems: getDict() and the decoded rendering equal the carried values')
-    check_f(ctx, facts, ctx.tier, ctx.seed)
     ctx.not_decided.append('decoding the rendering back to sample sequences for all histories (per-sample rules + bounded scenarios, not proved)')
